@@ -28,8 +28,11 @@ pub struct Pki {
 
 impl Pki {
     pub fn generate(base: &std::path::Path) -> anyhow::Result<Self> {
-        let a = Certs::generate(&base.join("A"))?;
-        let b = Certs::generate(&base.join("B"))?;
+        // CA A: the default (short-lived) set, renewed in place several times; CA B: a set
+        // generated with --no-expiry. Both are "the certificate set produced by the bundled
+        // generator" and each must satisfy both directions.
+        let a = Certs::generate_opts(&base.join("A"), false, 8)?;
+        let b = Certs::generate_opts(&base.join("B"), true, 1)?;
         let self_dir = base.join("self");
         std::fs::create_dir_all(&self_dir)?;
         let c = rcgen::generate_simple_self_signed(vec!["localhost".into()])?;
@@ -121,6 +124,8 @@ pub async fn run_case(pki: &Pki, c: &Case) -> Outcome {
     };
     let server = match server {
         Ok(s) => s,
+        // the server is given exactly the files the bundled generator wrote: they must load
+        Err(e) if c.server % 3 == 0 => return Outcome::fail("generated-set-unusable", format!("the server does not start with the CA, certificate and key files written by the bundled generator: {e}")),
         Err(e) => return Outcome::Inconclusive(format!("server start: {e}")),
     };
     let addr = server.addr;
@@ -213,7 +218,7 @@ pub async fn run_case(pki: &Pki, c: &Case) -> Outcome {
 }
 
 pub fn run(ctx: &mut Ctx) {
-    ctx.rule = "the full product client certificate {CA A, CA B, self-signed, none} x CA the client trusts {A, B} x server identity {cert A / verifies clients against A, cert B / verifies against A (isolates the client's check of the server), cert B / verifies against B} x stream kind (4), with freshly generated keys every run; the CA-B identities are presented as PEM full-chain files (leaf + issuer), the CA-A ones as the generator's DER files (two independent runs of the bundled generator give the two CAs, rcgen the self-signed certificate, a raw quinn client the certificate-less peer); quick enumerates all 24 identity triples with one seed-chosen stream kind each (all four for the fully trusted triple), thorough all 96 cells twice; oracle: a registration is answered Ok exactly when the client's certificate chains to the CA the server verifies against AND the server's certificate chains to the CA the client trusts (three of the 24 triples), every other pairing is never answered Ok and nothing it publishes reaches a trusted subscriber; non-trivial = any pairing other than trusted x trusted".into();
+    ctx.rule = "the full product client certificate {CA A, CA B, self-signed, none} x CA the client trusts {A, B} x server identity {cert A / verifies clients against A, cert B / verifies against A (isolates the client's check of the server), cert B / verifies against B} x stream kind (4), with freshly generated keys every run (CA A: the generator's default set, regenerated eight times over the same directory; CA B: a --no-expiry set); the CA-B identities are presented as PEM full-chain files (leaf + issuer), the CA-A ones as the generator's DER files (two independent runs of the bundled generator give the two CAs, rcgen the self-signed certificate, a raw quinn client the certificate-less peer); quick enumerates all 24 identity triples with one seed-chosen stream kind each (all four for the fully trusted triple), thorough all 96 cells twice; oracle: a registration is answered Ok exactly when the client's certificate chains to the CA the server verifies against AND the server's certificate chains to the CA the client trusts (three of the 24 triples), every other pairing is never answered Ok and nothing it publishes reaches a trusted subscriber; non-trivial = any pairing other than trusted x trusted".into();
     ctx.assumptions.push("configuration enumeration: expiry, revocation and key-usage variations are outside the property".into());
     let env = match Env::new() {
         Ok(e) => e,
